@@ -22,7 +22,7 @@ TRUSTED = [
 
 
 KLIM = {"quick": 9, "thorough": 12}     # largest input size validated exhaustively inside the kernel
-BUDGET = {"quick": 3e7, "thorough": 2e9}  # 2^n_in * statements^2 (the functional memory makes execution quadratic)
+BUDGET = {"quick": 3e7, "thorough": 2e8}  # 2^n_in * statements^2 (the functional memory makes execution quadratic)
 
 
 def exhaustive_ok(ck, p, n_in):
